@@ -9,8 +9,8 @@ def codes(s):
     return [ord(c) & 0xFF for c in s]
 
 
-def mkfile(name, data, ftype=2, dtype=0, load=0x0E00, exec_=0x0E00, ext="BIN"):
-    return {"name": name, "ext": ext, "type": ftype, "dtype": dtype, "gap": 0, "a1": load, "a2": exec_, "data": list(data)}
+def mkfile(name, data, ftype=2, dtype=0, load=0x0E00, exec_=0x0E00, ext="BIN", gap=0):
+    return {"name": name, "ext": ext, "type": ftype, "dtype": dtype, "gap": gap, "a1": load, "a2": exec_, "data": list(data)}
 
 
 def content(rnd, kind, n):
@@ -32,8 +32,9 @@ def content(rnd, kind, n):
 def to_coco(f):
     from cocoasm.virtualfiles.coco_file import CoCoFile
     from cocoasm.values import NumericValue
+    kw = {"gaps": NumericValue(f["gap"])} if f.get("gap") else {}       # (a file read from a tape recorded with gaps carries the flag $FF)
     return CoCoFile(name=f["name"], extension=f.get("ext", "BIN"), type=NumericValue(f["type"]), data_type=NumericValue(f["dtype"]),
-                    load_addr=NumericValue(f["a1"]), exec_addr=NumericValue(f["a2"]), data=list(f["data"]))
+                    load_addr=NumericValue(f["a1"]), exec_addr=NumericValue(f["a2"]), data=list(f["data"]), **kw)
 
 
 def jfile(f):
@@ -48,7 +49,7 @@ def from_coco(c):
             return v.int if not v.is_none() else 0
         except Exception:
             return 0
-    return {"name": codes(c.name), "ext": codes(c.extension or ""), "type": iv(c.type), "dtype": iv(c.data_type), "gap": 0,
+    return {"name": codes(c.name), "ext": codes(c.extension or ""), "type": iv(c.type), "dtype": iv(c.data_type), "gap": iv(getattr(c, "gaps", None)) if getattr(c, "gaps", None) is not None else 0,
             "a1": iv(c.load_addr), "a2": iv(c.exec_addr), "data": [int(b) for b in c.data]}
 
 
@@ -87,7 +88,7 @@ def random_tape_files(rnd, lengths=None, maxfiles=4):
         name = rnd.choice(["A", "HELLO", "ABCDEFGH", "ABCDEFGHIJKL", "", "U<", "lower", "MiXeD1", "12345678", "X" * rnd.randint(1, 12)])
         n = rnd.choice(lengths)
         out.append(mkfile(name, content(rnd, rnd.choice(["ramp", "55", "3c", "marker", "rand", "00"]), n), rnd.choice([0, 1, 2, 3]), rnd.choice([0, 255]),
-                          rnd.choice([0, 0x0E00, 0x553C, 0x3C00, 0x0055, 0xFFFF]), rnd.choice([0, 0x0E00, 0x3C55, 0x5500])))
+                          rnd.choice([0, 0x0E00, 0x553C, 0x3C00, 0x0055, 0xFFFF]), rnd.choice([0, 0x0E00, 0x3C55, 0x5500]), gap=rnd.choice([0, 0, 0, 255])))
     return out
 
 
@@ -98,6 +99,17 @@ T17 = GB * 34
 
 def seek(g):
     return GB * g + (2 * GB if g > 33 else 0)
+
+
+def expand_sparse(o):
+    """the 161,280-byte image of a sparse image [fat, dir, grans] written by spec/Gen_Disk.tla"""
+    buf = [0xFF] * IMG
+    buf[FAT_OFF:FAT_OFF + 68] = o["fat"]
+    buf[FAT_OFF + 68:FAT_OFF + 256] = [0] * 188
+    buf[DIR_OFF:DIR_OFF + 2304] = o["dir"]
+    for gr in o["grans"]:
+        buf[seek(gr["g"]):seek(gr["g"]) + GB] = gr["b"]
+    return buf
 
 
 def list_disk(buf):
